@@ -1,5 +1,5 @@
 (* C03 - A clean restart preserves every message, offset and the append position. *)
-From IggyV Require Import Base.Tactics Base.ListX Model.Part Model.PartSpec Proofs.PartBasics Proofs.PartHistory Proofs.PartCounts Proofs.CacheHistory Proofs.OffsetsHistory Proofs.ReadExact Proofs.ReadPart Proofs.ReadHistory Proofs.ExpiryBasics Proofs.ExpiryHistory Proofs.DedupHistory Proofs.Refine.
+From IggyV Require Import Base.Tactics Base.ListX Model.Part Model.PartSpec Proofs.PartBasics Proofs.PartHistory Proofs.PartCounts Proofs.CacheHistory Proofs.OffsetsHistory Proofs.ReadExact Proofs.ReadPart Proofs.ReadHistory Proofs.ExpiryBasics Proofs.ExpiryHistory Proofs.DedupHistory Proofs.TsPolls Proofs.Refine.
 Open Scope N_scope.
 
 Definition C03_full : Prop := forall c t0 ops, model_check c t0 ops = 0.
@@ -45,7 +45,8 @@ Qed.
 (* PROVED - REFINEMENT (Proofs/Refine.v): the specification monitor accepts EVERY run of the model, i.e. for every operation
    list a restart changes neither the abstract log nor the earliest retained offset nor the stored consumer offsets, and what is polled afterwards is the same.  This is C03_full under the guards the real code itself enforces or the model needs: segment size > 0, poll counts >= 1
    (System::poll_messages refuses count 0 before the partition is reached), offsets and log files below 2^32 (32-bit index
-   fields), send timestamps non-zero and never going backwards; by-timestamp polls are the one operation kind left out. *)
+   fields), send timestamps non-zero and never going backwards, restarts not before the last send.  Polls of every kind are
+   covered: by offset, by timestamp, first, last, next. *)
 Theorem C03_refinement : forall ops c t0, 0 < c_seg c -> times_ok 0 ops -> Forall poll_ok ops ->
   Forall bounds_ok (prun_states (c, part_new c t0) ops) -> model_check c t0 ops = 0.
 Proof. exact model_refines_spec. Qed.
